@@ -847,8 +847,8 @@ impl Family for C05 {
 
     fn runs(t: Tier) -> u64 {
         match t {
-            Tier::Quick => 300_000,
-            Tier::Thorough => 20_000_000,
+            Tier::Quick => 3_000_000,
+            Tier::Thorough => 150_000_000,
         }
     }
 
